@@ -33,6 +33,10 @@ pub enum MountCase {
     },
     /// fully random sectors; `sigs` forces the 0xAA55 signatures and a plausible partition entry
     Random { mbr: Vec<u8>, boot: Vec<u8>, info: Vec<u8>, sigs: bool },
+    /// a boot sector that passes validation as FAT32 although the volume has fewer than 65536
+    /// blocks (one block per cluster, FATs far too small), so that the whole volume fits into the
+    /// last blocks of the 32-bit block range: every "start + field" sum is at the overflow edge
+    TinyTop { back: u8, reserved: u8, num_fats: u8, fat_size: u8, slack: u8, fs_info: u16, root_cluster: u32, edits: Vec<(u8, u16, u8, u32)> },
 }
 
 fn fail(code: &str, detail: String) -> Failure {
@@ -278,6 +282,48 @@ pub fn run_case(c: &MountCase, acc: &mut Acc, verbose: bool) -> Result<(), Failu
             acc.shape(&("highlba", delta % 70_000, base % 2, edits.len()));
             Ok(())
         }
+        MountCase::TinyTop { back, reserved, num_fats, fat_size, slack, fs_info, root_cluster, edits } => {
+            let (src, boot, info) = base_image(1);
+            let reserved = (*reserved % 4 + 1) as u32;
+            let nf = (*num_fats % 2 + 1) as u32;
+            let fat = (*fat_size % 3 + 1) as u32;
+            let slack = (*slack as u32) % (10u32.saturating_sub(reserved + nf * fat) + 1);
+            let total: u32 = 65_535 - slack;
+            let start: u32 = (u32::MAX - total + 1) - (*back as u32 % 4).min(u32::MAX - total + 1 - 1);
+            let mut img = Image::new(u32::MAX);
+            let mut m = src.rd(0);
+            m[454..458].copy_from_slice(&start.to_le_bytes());
+            m[458..462].copy_from_slice(&total.to_le_bytes());
+            img.wr(0, &m);
+            let mut b = src.rd(boot);
+            b[11..13].copy_from_slice(&512u16.to_le_bytes());
+            b[13] = 1;
+            b[14..16].copy_from_slice(&(reserved as u16).to_le_bytes());
+            b[16] = nf as u8;
+            b[17..19].copy_from_slice(&0u16.to_le_bytes());
+            b[19..21].copy_from_slice(&0u16.to_le_bytes());
+            b[22..24].copy_from_slice(&0u16.to_le_bytes());
+            b[32..36].copy_from_slice(&total.to_le_bytes());
+            b[36..40].copy_from_slice(&fat.to_le_bytes());
+            b[44..48].copy_from_slice(&root_cluster.to_le_bytes());
+            b[48..50].copy_from_slice(&fs_info.to_le_bytes());
+            img.wr(start, &b);
+            // a well-formed information sector wherever the boot sector points (if that is a block)
+            if let Some(dst) = start.checked_add(*fs_info as u32) {
+                if dst != start {
+                    img.wr(dst, &src.rd(info));
+                }
+            }
+            for (sec, off, width, value) in edits {
+                if sec % 3 == 1 && !matches!(*off, 11 | 13 | 14 | 16 | 17 | 19 | 22 | 32 | 36) {
+                    put(&mut img, start, *off as usize % 512, *width, *value);
+                }
+            }
+            let opened = open_all_sized(img)?;
+            acc.class(if opened > 0 { "invalid:tiny-top:mounts" } else { "invalid:tiny-top:rejected" });
+            acc.shape(&("tinytop", reserved, nf, fat, slack, *fs_info, *root_cluster));
+            Ok(())
+        }
         MountCase::Mutate { base, muts } => {
             let (mut img, boot, info) = base_image(*base);
             for (sec, off, val) in muts {
@@ -413,7 +459,11 @@ pub fn case_strategy() -> BoxedStrategy<MountCase> {
         prop_oneof![2 => Just(None), 1 => Just(Some(0u32)), 1 => Just(Some(1u32)), 1 => (0u32..100_000).prop_map(Some), 1 => Just(Some(u32::MAX))],
     )
         .prop_map(|(delta, base, edits, mbr_len)| MountCase::HighLba { delta, base, edits, mbr_len });
-    prop_oneof![3 => valid, 4 => fields, 2 => muts, 3 => random, 2 => high].boxed()
+    let b16 = prop_oneof![2 => Just(0u16), 2 => Just(1u16), 1 => Just(2u16), 2 => Just(0xFFFFu16), 1 => Just(0xFFFEu16), 1 => Just(0x8000u16), 2 => any::<u16>()];
+    let b32 = prop_oneof![2 => Just(0u32), 1 => Just(1u32), 3 => Just(2u32), 2 => Just(u32::MAX), 1 => Just(u32::MAX - 1), 1 => Just(0x0FFF_FFFFu32), 1 => (0u32..70_000), 1 => any::<u32>()];
+    let tiny = (any::<u8>(), any::<u8>(), any::<u8>(), any::<u8>(), any::<u8>(), b16, b32, prop::collection::vec(field_edit(), 0..2))
+        .prop_map(|(back, reserved, num_fats, fat_size, slack, fs_info, root_cluster, edits)| MountCase::TinyTop { back, reserved, num_fats, fat_size, slack, fs_info, root_cluster, edits });
+    prop_oneof![3 => valid, 4 => fields, 2 => muts, 3 => random, 2 => high, 2 => tiny].boxed()
 }
 
 /// Every single field x boundary value, and all pairs of the interacting BPB fields.
@@ -450,6 +500,21 @@ pub fn enumerate_fields(acc: &mut Acc) -> Option<(Failure, serde_json::Value)> {
                         if let Err(f) = run_case(&c, acc, false) {
                             return Some((f, serde_json::to_value(&c).unwrap()));
                         }
+                    }
+                }
+            }
+        }
+    }
+    // the same single-field edits on volumes placed at the very top of the 32-bit block range,
+    // where "start + field" sums overflow
+    for delta in [0u32, 1, 1000, 65_534] {
+        for base in 0..2u8 {
+            for (s, o, w, _) in FIELDS {
+                for v in vals(*w) {
+                    let c = MountCase::HighLba { delta, base, edits: vec![(*s, *o, *w, v)], mbr_len: None };
+                    acc.evaluations += 1;
+                    if let Err(f) = run_case(&c, acc, false) {
+                        return Some((f, serde_json::to_value(&c).unwrap()));
                     }
                 }
             }
